@@ -44,6 +44,14 @@ PINS = {
             'usim/_concurrent/basics.py:*', P + 'task.py:Task.__await__'],
 }
 SKIP = ('.__repr__', '.__str__', 'Lock.__enter__', 'Lock.__exit__')
+ANCHORS = {}
+try:
+    import json as _json
+    for _l in open(os.path.join(os.path.dirname(os.path.dirname(os.path.abspath(__file__))), 'properties.jsonl')):
+        _d = _json.loads(_l)
+        ANCHORS[_d['id']] = _d['anchors']['files']
+except (OSError, ValueError, KeyError):
+    pass
 
 
 def main():
@@ -66,8 +74,11 @@ def main():
         cov = os.path.join(os.path.dirname(os.path.dirname(os.path.abspath(__file__))), 'coverage', prop + '.json')
         if os.path.exists(cov):
             import json
+            anchors = ANCHORS.get(prop, [])
             for k in json.load(open(cov)):
-                if k in h and k not in ks and not k.endswith(SKIP):
+                # ... restricted to the files the property is anchored in (properties.jsonl): the helpers everything
+                # shares (kernel, notifications) do not make every property depend on every line
+                if k in h and k not in ks and not k.endswith(SKIP) and k.split(':')[0] in anchors:
                     ks.append(k)
         per[prop] = ks
         used |= set(ks)
